@@ -6,6 +6,7 @@ import (
 	"errors"
 	"io"
 	"math/big"
+	"sync/atomic"
 
 	"github.com/xelaj/mtproto/zverif/vrand"
 )
@@ -19,16 +20,17 @@ type reader struct{}
 var FailAt int64
 
 func (reader) Read(p []byte) (int, error) {
-	if FailAt > 0 {
-		FailAt--
-		if FailAt == 0 {
+	// FailAt is only set by single-threaded drivers; the counters are atomic so that free-running drivers
+	// (several clients at once) do not race inside the shim
+	if atomic.LoadInt64(&FailAt) > 0 {
+		if atomic.AddInt64(&FailAt, -1) == 0 {
 			return 0, errors.New("crypto/rand: injected read failure")
 		}
 	}
 	if vrand.Owned() {
 		return vrand.Read(p)
 	}
-	CryptoBytes += int64(len(p))
+	atomic.AddInt64(&CryptoBytes, int64(len(p)))
 	return crand.Read(p)
 }
 
